@@ -186,7 +186,7 @@ def smemEmuW (reg start n : Nat) (m : Nat → Nat) : List Wr :=
 
 /-- `handleScalarDataLoadReturn` for the response of one chunk -/
 def chunkW (reg start : Nat) (m : Nat → Nat) (c : Nat × Nat) : List Wr :=
-  (List.range (c.2 / 4)).map fun i => ⟨c.1, (0, reg + (c.1 - start) / 4 + i), le32 m (c.1 + 4 * i)⟩
+  (List.range (c.2 / 4)).map fun i => ⟨0, (0, reg + (c.1 - start) / 4 + i), le32 m (c.1 + 4 * i)⟩
 
 def timingSmem (reg start : Nat) (m : Nat → Nat) (ord : List (Nat × Nat)) (s : St) : St :=
   ord.foldl (fun s c => applyW (chunkW reg start m c) s) s
